@@ -3,6 +3,8 @@ package mon
 import (
 	stded25519 "crypto/ed25519"
 	"fmt"
+	"go.step.sm/crypto/x25519"
+	"runtime"
 
 	"github.com/go-i2p/common/encrypted_leaseset"
 	"github.com/go-i2p/common/lease_set"
@@ -265,6 +267,42 @@ func runC06(c *core.Ctx) {
 						}
 						return len(rem), p.Verify(), nil
 					})
+				// the other wire a LeaseSet2 travels on: encrypted inside an EncryptedLeaseSet. What the
+				// recipient decrypts verifies like the original (and keeps verifying after a further call)
+				if i%3 == 0 && ls.Verify() == nil {
+					priv, pub, _ := rm.X25519KeyPair(r.Bytes(32))
+					var cookie [32]byte
+					copy(cookie[:], r.Bytes(32))
+					var inner *lease_set2.LeaseSet2
+					var derr error
+					p, _, _ := c.Call("encrypted_leaseset.DecryptInnerData(signed LeaseSet2)", nil, func() {
+						blob, err := encrypted_leaseset.EncryptInnerLeaseSet2(ls, cookie, x25519.PublicKey(pub))
+						if err != nil {
+							derr = err
+							return
+						}
+						els, err := elsWith(blob)
+						if err != nil {
+							derr = err
+							return
+						}
+						inner, derr = els.DecryptInnerData(cookie[:], x25519.PrivateKey(priv))
+					})
+					if !p && derr == nil && inner != nil {
+						c.Eval(1)
+						verr := inner.Verify()
+						if verr == nil {
+							rm.X25519KeyPair(r.Bytes(32)) // unrelated work in between
+							runtime.GC()
+							verr = inner.Verify()
+						}
+						if verr != nil {
+							c.Violate("lease_set2.NewLeaseSet2", "does-not-verify-after-wire", sh, nil, "signed LeaseSet2 encrypted into an EncryptedLeaseSet and decrypted again: "+firstLineOf(verr.Error()))
+						} else {
+							c.Bucket("verified-after-encrypted-wire/lease_set2.NewLeaseSet2")
+						}
+					}
+				}
 			})
 		}
 	}
